@@ -45,3 +45,19 @@ pub open spec fn wf_list(t: Tree) -> bool
 }
 pub open spec fn same_value(a: Tree, b: Tree) -> bool { forall|env: Tree| #[trigger] eval(a, env) == eval(b, env) }
 pub open spec fn same_operands(a: Tree, b: Tree) -> bool { forall|env: Tree| #[trigger] eval_list(a, env) == eval_list(b, env) }
+
+// ---- consensus semantics of the pieces the cl23 path shortening relies on (ASSUMED axioms about the CLVM evaluator; each is
+// a fact of clvmr: traverse_path, op_first / op_rest, eager evaluation of every operand, a proper operand list ends in nil)
+pub open spec fn sub_first(v: Option<Tree>) -> Option<Tree> { match v { Some(Tree::Pair(a, _)) => Some(*a), _ => None } }
+pub open spec fn sub_rest(v: Option<Tree>) -> Option<Tree> { match v { Some(Tree::Pair(_, b)) => Some(*b), _ => None } }
+pub broadcast axiom fn axiom_path_lookup(p: Seq<u8>, env: Tree)
+    ensures #[trigger] path_lookup(p, env) == tree_path(be_unsigned(p), env);
+pub broadcast axiom fn axiom_first_rest(x: Option<Tree>)
+    ensures #[trigger] op_apply(Tree::Atom(seq![5u8]), seq![x]) == sub_first(x), #[trigger] op_apply(Tree::Atom(seq![6u8]), seq![x]) == sub_rest(x);
+pub broadcast axiom fn axiom_operands_strict(op: Tree, operands: Seq<Option<Tree>>, i: int)
+    requires 0 <= i < operands.len(), operands[i] is None
+    ensures #[trigger] op_apply(op, operands) is None, #[trigger] operands[i] is None;
+pub broadcast axiom fn axiom_proper_list_end()
+    ensures #[trigger] list_end(Seq::<u8>::empty()) == Seq::<Option<Tree>>::empty();
+// opt computes what orig computes whenever orig returns a value (it may return where orig fails: lazier, never different)
+pub open spec fn refines(opt: Tree, orig: Tree) -> bool { forall|env: Tree| (#[trigger] eval(orig, env)) is Some ==> eval(opt, env) == eval(orig, env) }
